@@ -2,7 +2,7 @@
 From Coq Require Import ZArith List Bool String.
 From TV Require Import Base.Prelude Base.C18_Lib
      Model.C18_Cache Spec.C18_CacheSpec Model.C18_Conc Model.C18_LockSteps Model.C18_Rsa Gen.Locks
-     Proofs.C18_Cache Proofs.C18_CacheWit Proofs.C18_Conc Proofs.C18_Locks Proofs.C18_Rsa Proofs.C18_Lin.
+     Proofs.C18_Cache Proofs.C18_CacheWit Proofs.C18_Conc Proofs.C18_Locks Proofs.C18_Rsa Proofs.C18_Lin Proofs.C18_LinEx.
 Import ListNotations.
 Open Scope Z_scope.
 
@@ -152,6 +152,16 @@ Theorem cache_linearizable : forall (Lo V : Type) (sem : ccall -> list (step Lo 
     map (fun t => res (t_lo t)) (g_threads cf) = snd m /\
     Forall (fun r => r <> None) (snd m).
 Proof. exact cache_linearizable_all. Qed.
+
+(* the two hypotheses are satisfiable for every list of get/put calls: a step program with exactly
+   the extracted shapes whose sequential effect is the model (Proofs/C18_LinEx.v) *)
+Example cache_linearizable_hypotheses_instance : forall calls : list ccall,
+  Forall (fun c => match fst c with Get _ | Put _ _ => True | _ => False end) calls ->
+  (forall call, In call calls -> cache_method (fst call) = Some (map (@shape_of exLo exV) (ex_sem call))) /\
+  (forall call st, In call calls ->
+     ex_abs (fst (run_all st None (ex_sem call))) = fst (cache_mstep (ex_abs st) call) /\
+     (fun lo : exLo => lo) (snd (run_all st None (ex_sem call))) = Some (snd (cache_mstep (ex_abs st) call))).
+Proof. exact cache_linearizable_hypotheses_hold. Qed.
 
 (* ======== RSA blinding ======================================================== *)
 Theorem blinding_invariant : forall n e b u, 1 < n ->
